@@ -14,10 +14,12 @@ LEVEL = "exploration"
 REAL, STUBS = _hist.REAL, _hist.STUBS
 RULE = ("per-run seed -> knobs + a history of 1-6 writer transactions with every merge choice, deletions and restarts (index "
         "states with 1..n segments, with and without deletions, reached through the real storage layer on the simulated "
-        "machine) + 10 generated query trees (depth <= 3: Term, And, Or, Not, AndNot, AndMaybe, Require, DisjunctionMax, "
-        "Phrase with slop, Prefix, Wildcard, Regex, TermRange, NumericRange, Every, boosts). After the final commit and a "
-        "cold reopen each tree is run through every access path {limit=None, limit=k, scored=False, sortedby, "
-        "docs_for_query, Query.docs, terms=True} and compared with the set evaluator over the reference model. "
+        "machine; 35% of the runs start with a bulk transaction of 30-70 documents at block limit 1-8) + 12 query trees (7 random of "
+        "depth <= 3, 3 of fixed shapes mixing binary operators over intersections/unions, 2 phrases taken with gaps from documents of "
+        "the history; leaves: Term, Phrase with slop, Prefix, Wildcard, Regex, TermRange, NumericRange, DateRange, FuzzyTerm (skipped where "
+        "the documented distances disagree), Every; operators And, Or, Not, AndNot, AndMaybe, Require, DisjunctionMax, boosts). After the final commit and a "
+        "cold reopen each tree is run through 12 access paths {limit=None, limit=1/2/5, scored=False, sortedby (+limit), "
+        "docs_for_query, Query.docs per sub-searcher and on the top-level searcher, Results.docs(), terms=True} and compared with the set evaluator over the reference model. "
         "evaluations = (state, query, path) comparisons; non-trivial run = >=1 commit and >=1 query with a non-empty "
         "expected set; distinct = distinct event-log SHA-256 x query list.")
 ASSUMPTIONS = ["the query-shape dimension is sampled workload (input generation); what the simulator contributes is the index state: histories, layouts, deletions, knobs, restarts",
